@@ -277,12 +277,17 @@ def txn_flow(ctx, r):
         return
     g.seed(("F", txn, key_f[0]), "TXN_KEY")
     g.seed(("F", txn, size_f[0]), "TXN_SIZE")
-    # finalize(hasher) results
+    # finalize(hasher) results: the hasher is the transaction's (possibly moved into an internal struct or a local)
+    g.seed(("F", txn, hasher_f[0]), "TXN_HASHER")
+    g.solve()
     for b in prog.bodies.values():
         for s in b.calls():
             if s.path == "blake3::Hasher::finalize":
                 root = ctx.world.root_place(b, s.term["args"][0])
-                if root is not None and g.node_of_place(b, root) == ("F", txn, hasher_f[0]):
+                if root is None:
+                    continue
+                if g.node_of_place(b, root) == ("F", txn, hasher_f[0]) or \
+                        "TXN_HASHER" in g.labels.get(g.node_of_place(b, root), ()):
                     g.seed(g.node_of_place(b, s.term["dest"]), "TXN_HASH")
     # do not let labels flow through the hasher/size into each other: size is a plain counter
     g.solve()
@@ -290,7 +295,7 @@ def txn_flow(ctx, r):
     T = {"TXN_KEY", "TXN_SIZE", "TXN_HASH"}
     for f in prog.adts[item]["variants"][0]["fields"]:
         labs = set(g.labels.get(("F", item, f["name"]), ())) & T
-        want = "TXN_HASH" if "hash" in f["name"] else "TXN_SIZE"
+        want = "TXN_HASH" if prog.adt_of(f["ty"])[0] == A.get("HASH") else "TXN_SIZE"
         r.check(labs == {want}, "flow:%s" % f["name"], None,
                 "%s.%s receives the transaction's %s and nothing else of it" % (item.split("::")[-1], f["name"], want),
                 "%s.%s receives %s of the transaction (expected exactly %s)" % (
